@@ -3249,6 +3249,11 @@ public:
           operator-=(x);
           assert(!is_bottom());
           m_vert_map.insert(vmap_elt_t(x, {v, w}));
+        } else {
+          // No octagon constraint relates e with other variables: the
+          // old value of x is forgotten and x only keeps the interval
+          // of e.
+          set(x, x_int);
         }
       }
     }
